@@ -363,6 +363,22 @@ def same_name_kinds(ctx):
                         ctx.stats["identity"] += 1
 
 
+def unterminated_literal_targets(ctx):
+    """an assignment whose string literal lacks the closing quote (legal at the end of a line) goes to the same variable
+    as the terminated spelling - scalar and array element of one name stay apart there too"""
+    for name in ("Q", "NA", "NAME"):
+        for let in ("", "LET "):
+            for tgt, kind in ((f"{name}$", "scalar"), (f"{name}$ ( 3 )", "element"), (f"{name}$ ( 1 , 2 )", "element-2d")):
+                closed = classify(f'10 {let}{tgt} = "HELLO"\n')
+                opened = classify(f'10 {let}{tgt} = "HELLO\n')
+                ctx.stats["programs"] += 2
+                ctx.stats["obligations"] += 1
+                if closed[0] == "ok" and opened == closed:
+                    ctx.stats["identity"] += 1
+                else:
+                    ctx.violation(f"unterminated-literal-target:{kind}", f'`10 {let}{tgt} = "HELLO` -> {str(opened)[:90]}; with the closing quote {str(closed)[:90]}', {"source": f'10 {let}{tgt} = "HELLO', "names": [name, name], "kind": "strarr" if kind != "scalar" else "str"})
+
+
 def generated_not_initialised(ctx, gen_out, G):
     """with initialize_vars the prologue assigns user variables only: an identifier the tool generates must not be
     treated as a user variable by the initialiser"""
@@ -538,6 +554,7 @@ def run(tier):
     embedded_keywords(ctx)
     same_name_kinds(ctx)
     reserved_word_positions(ctx)
+    unterminated_literal_targets(ctx)
     generated_not_initialised(ctx, gen_out, G)
     ctx.add_solver_stats(stats.export())
     ctx.extra["solver"] = {"z3": smt.z3_version()}
